@@ -12,7 +12,7 @@ import (
 func Run(c *vrun.Ctx) error {
 	c.Ev.Coverage.Rule = "TLC enumerates the cases of Merkle.tla (leaf lists with duplicated tails, txid and wtxid form; coinbase output layouts x witness nonce shapes x blocks), " +
 		"Weight.tla (transaction and block shapes at the compact-size boundaries), SigOps.tla (every byte string up to the tier's length over the bytes that matter, token sequences, " +
-		"P2SH and witness spends, transactions against an output view), Locks.tla (lock-time table, coinbase height scripts) and every block-time history of Bip68.tla up to the tier's depth; " +
+		"P2SH and witness spends, transactions against an output view), Locks.tla (lock-time table, coinbase height scripts) and every block-time history of Bip68.tla up to the tier's depth, including forks (a side branch with its own timestamps, one block longer than the main branch, validated while the main branch is the best chain); " +
 		"each state carries the definition's answer and is replayed into the exported btcd functions (the merkle root is recomputed with SHA-256 along the specification's tree term). " +
 		"distinct_nontrivial counts distinct inputs (tree shape, layout/nonce/verdict, shape, script prefix class, input kinds and flags, table row, history class)."
 	c.Assume("TLC evaluates the specification's operators correctly; the three merkle constructions, the decode/encode pair of the coinbase height and the lock laws are cross-checked inside TLC as invariants")
